@@ -36,12 +36,12 @@ def run(ctx):
         vlib.coq_make(ctx, "Spec")
     proof_ok = bool(pr and pr["ok"])
 
-    pipe = os.path.join(ctx.out, "pipe")
-    cases = os.path.join(pipe, "cases")
+    pipe = os.path.join(ctx.out, "pipe-%d" % os.getpid())   # private to this run (checks may run concurrently)
+    cases = os.path.join(pipe, "cases")     # written by the harness into <pipe>/cases
     summary, oracle_bad, corr_bad = {}, [], []
     ran = False
     if ok_build:
-        vlib.clean_dir(cases)
+        os.makedirs(cases, exist_ok=True)
         rc, out = hc.h03(ctx, ["pipeline", pipe, ctx.tier], timeout=3000)
         if rc != 0 or not os.path.exists(os.path.join(pipe, "summary.json")):
             ctx.violation("pipeline leg of h03 failed to run", {"output": out[-2000:]}, found_input=False)
@@ -109,6 +109,9 @@ def run(ctx):
     sp = os.path.join(pipe, "samples.txt")
     if os.path.exists(sp):
         samples = open(sp).read().splitlines()[:10]
+    if not ctx.violations:
+        import shutil
+        shutil.rmtree(pipe, ignore_errors=True)
     ctx.cov.update({
         "obligations": pr["obligations"] if pr else 0,
         "discharged": pr["discharged"] if pr else 0,
